@@ -76,18 +76,53 @@ Proof.
 Qed.
 Print Assumptions fuse_width.
 
-(* Refuted for circuits that already contain a FusedGate (outside the alphabet of fuse_equiv):
-   the node built for it is dropped by from_fused whenever its first member is ordinary. *)
-Theorem fuse_fused_input_refuted :
+(* A FusedGate of the INPUT circuit is the special letter (id, qubits, KSpec): it is kept as its
+   own item, never absorbed, never reordered with respect to anything (its support is all n
+   qubits in gteqn), so re-fusing a fused circuit is covered by fuse_equiv. *)
+Theorem fuse_keeps_fused_inputs : forall (n : nat) (c : list gate) (max_qubits : nat) (g : gate),
+  In g c -> gk g = KSpec ->
+  In (ISingle g) (fuse_model n c max_qubits)
+  /\ (forall h q, In q (gsupp n h) -> q < n -> gindepn n g h = false).
+Proof.
+  intros n c k g Hg Hk. split.
+  - apply fuse_single_proof; auto. unfold is_ord. now rewrite Hk.
+  - intros h q Hq Hlt. unfold gindepn, sindep. apply disjointb_false. exists q. split; auto.
+    unfold gsupp. rewrite Hk. apply in_seq. lia.
+Qed.
+Print Assumptions fuse_keeps_fused_inputs.
+
+(* The guard `between_gates == {child}` of FusedGate.fuse never rejects: in every state reachable by
+   the fusion loop ([Inv] holds there: ProofsFuse.fuse_loop_inv, to_fused_inv), for a gate l and
+   its neighbour r on some qubit q (the only way Circuit.fuse calls fuse), whichever branch the
+   abort test selects has its between-test true.  (So deleting the guard is an equivalent
+   mutant; the harness indeed cannot and need not detect it.) *)
+Theorem between_guard_redundant : forall n k c0 st l r q,
+  Inv n k c0 st ->
+  nmarked (getn st l) = false -> nmarked (getn st r) = false ->
+  rt st l q = Some r \/ lf st r q = Some l ->
+  let shared := sinter (nqs (getn st l)) (nqs (getn st r)) in
+  l < r
+  /\ (others (nleft (getn st r)) l = [] -> between_ok (nright (getn st l)) shared r = true)
+  /\ (others (nright (getn st l)) r = [] -> between_ok (nleft (getn st r)) shared l = true).
+Proof. exact between_guard_redundant_proof. Qed.
+Print Assumptions between_guard_redundant.
+
+Theorem fusion_states_satisfy_Inv : forall n k c, Inv n k c (to_fused n c) /\
+  (forall st i q, Inv n k c st -> Inv n k c (visit_q k i st q)).
+Proof. intros n k c. split; [apply to_fused_inv | intros; apply visit_q_inv; auto]. Qed.
+Print Assumptions fusion_states_satisfy_Inv.
+
+(* For the record: BEFORE the repair of FusedGate.from_gate the node built for an input FusedGate
+   held its (ordinary) members and was dropped by from_fused -- the defect found by this check. *)
+Lemma prefix_fused_input_was_dropped :
   exists (n : nat) (members : list gate),
     members <> [] /\ (forall g, In g members -> is_ord g = true)
-    /\ from_fused [node_of_fused_input n members] = [].
+    /\ from_fused [prefix_node_of_fused_input n members] = [].
 Proof.
   exists 2, [mkGate 0 [0] KOrd; mkGate 1 [0;1] KOrd]. split; [discriminate|]. split.
   - intros g [<-|[<-|[]]]; reflexivity.
   - reflexivity.
 Qed.
-Print Assumptions fuse_fused_input_refuted.
 
 (* ---- light cone ---- *)
 (* kept = the gates of the light-cone circuit (before re-indexing), cone = the final qubit set *)
